@@ -6,6 +6,8 @@
 (*  {"ev":"hash","seq":k,"size":256|224,"of":p,"digest":d}   Hasher::<size>::hash(bytes(p)) = d *)
 (*  {"ev":"id","seq":k,"kind":K,"wire":w,"reported":d,"api":..,"at":..}       *)
 (*        the library reports d for the artefact of kind K decoded from bytes(w) *)
+(*  {"ev":"find","seq":k,"kind":"datum","among":[w..],"by":d,"found":w|0,"api":..,"at":..} *)
+(*        MultiEraTx::find_plutus_data(d) among the witness datums with wire bytes w..  *)
 EXTENDS Identity, TraceKit
 
 VARIABLE l
@@ -19,5 +21,7 @@ THash  == IsEvent("hash") /\ HashFact(Rec[l].size, Rec[l].of, Rec[l].digest)
 TCat   == IsEvent("cat") /\ CatFact(Rec[l].prefix, Rec[l].part, Rec[l].whole)
 TId    == IsEvent("id") /\ Report(Rec[l].kind, Rec[l].wire, Rec[l].reported)
 
-TNext == TReset \/ THash \/ TCat \/ TId
+TFind  == IsEvent("find") /\ Find({Rec[l].among[i] : i \in 1..Len(Rec[l].among)}, Rec[l].by, Rec[l].found, 0)
+
+TNext == TReset \/ THash \/ TCat \/ TId \/ TFind
 =============================================================================
